@@ -492,6 +492,29 @@ def run_C15(ctx, proof_ok):
             "distribution": {"model_cases": n1, **{k: int(v) for k, v in dist1.items()}, "option_cases": n2}}
 
 
+def run_C06(ctx, proof_ok):
+    import exc
+
+    E = epg()
+    r = lib.rng(6)
+    corpus = [c for c in load_corpus(ctx.prop) if "ops" in c]
+    cases = corpus + [exc.gen_case(r, maxlen=budget(ctx.tier, 10, 16)) for _ in range(budget(ctx.tier, 150, 3000))]
+    n1, d1 = exc.compare(cases, E)
+    n2, d2, dist2 = exc.search_physics(r, E, budget(ctx.tier, 120, 3000))
+    n3, d3 = exc.search_limits(r, E, budget(ctx.tier, 50, 1000))
+    ctx.violations.extend(d1 + d2 + d3)
+    return {"evaluations": n1 + n2 + n3, "distinct_nontrivial": sum(1 for c in cases if len(c["ops"]) > 3) + n2 + n3,
+            "rule": "2-4 compartments with random densities and detailed-balance kinetic matrices (or a scalar rate), sequences of "
+                    "T / S / per-compartment E / X(tau, K, T1, T2, g incl. None): every compartment's states vs the Lean exchange "
+                    "model (scaled Taylor exponential, an algorithm independent of the code's eigendecomposition); physics search: X "
+                    "vs exp(tau(-K+R))(M-Meq)+Meq by numpy scaling-and-squaring with the exchange axis at position 0 with a trailing "
+                    "batch axis, at position 1 after a batch axis, infinite T1, with and without relaxation; semigroup tau1,tau2; "
+                    "equilibrium fixed point; total magnetisation conserved without relaxation; limits: zero exchange = E per "
+                    "compartment, scalar rate = its kinetic matrix, batched tau = each tau alone",
+            "samples": [lib.jsonable(cases[-1])],
+            "distribution": {"model_cases": n1, "physics_cases": n2, **{k: int(v) for k, v in dist2.items()}, "limit_cases": n3}}
+
+
 def merge_results(a, b, rule):
     out = dict(a)
     out["evaluations"] = a["evaluations"] + b["evaluations"]
@@ -925,6 +948,20 @@ PROPS["C15"] = {
                 "Bloch isochromat (composition with C04, three axes + time); real modulation is the per-state factor exp(rate|t|). "
                 "The tol masks, einsum/broadcast plumbing over batch and position axes, weights/reduce and System() are decided "
                 "by execution and the options search only"],
+}
+
+PROPS["C06"] = {
+    "lean_modules": ["EpgVerif.Props.C06"],
+    "tie": [],
+    "audit": "EpgVerif/Audit/C06.lean",
+    "run": run_C06,
+    "replay": replay_generic,
+    "theorems_hint": ["evolve_ode", "evolve_semigroup", "total_conserved", "zero_exchange_independent", "equilibrium_in_kernel", "applyX_is_evolve"],
+    "partial": ["proved for Mathlib's matrix exponential: the model's per-state action with the exponentials of the generators is the "
+                "solution of dM/dt = A(M - Meq) (ODE, semigroup, fixed point, diagonal case, conservation when the columns of K sum "
+                "to zero). The code's expm (eigendecomposition + solve) and the driver's scaled Taylor series are two numerical "
+                "stand-ins for that exponential: their agreement is checked by execution, not proved; axis moving / broadcasting of "
+                "the compartment axis is decided by the physics search only"],
 }
 
 NOT_CLAIMED = {}
